@@ -98,7 +98,7 @@ def b_threads(job):
                     e["status"] = 0 if res in ("sat", "unsat", "unknown") else 1
                     e["sig"] = 6 if (res == "crash" or res.startswith("exception")) else 0
                     e["san"] = bool(san) and t == 0 and r == 0
-                    e["det"] = False; e["nerr"] = 0; e["synerr"] = False
+                    e["det"] = False; e["nerr"] = 0; e["synerr"] = False; e["site"] = ""
             events += clone
             answers.append(res)
     sample = {"builder": "threads", "seed": job["seed"], "threads": nthreads, "rounds": rounds, "flavour": flavour,
